@@ -71,6 +71,9 @@ def classify(prop, v, known):
     return None
 
 
+from vf.worker import THOROUGH_ROUNDS  # noqa: E402
+
+
 def main(argv=None):
     argv = list(sys.argv[1:] if argv is None else argv)
     if not argv:
@@ -203,6 +206,7 @@ def do_check(prop, tier, seed, scratch, t0):
             'cases': merged['cases'],
             'skipped_for_time': merged['skipped_for_time'],
             'strata': dict(merged['strata']),
+            'seeded_rounds': (int(os.environ.get('VF_THOROUGH_ROUNDS', 0)) or THOROUGH_ROUNDS.get(prop, 1)) if tier == 'thorough' else 1,
             'observed_classes': dict(sorted(merged['obs'].items())),
             'required_classes': META.get('required_obs', {}).get(tier, []),
             'extra': dict(merged['extra']),
